@@ -57,9 +57,10 @@ static TGraph clique_chain(int k, int s) {
 }
 
 struct Ctx { Stats &st; };
+static std::string g17(double x) { char b[64]; snprintf(b, sizeof b, "%.17g", x); return b; }
 static void expect_eq(Stats &st, const std::string &rel, double a, double b, const TGraph &t, const std::string &note) {
     st.evaluations++; st.counts[rel]++;
-    if (a != b) { st.violations++; if (st.counts["viol_" + rel]++ < 2) emit_violation("relation:" + rel, "relation-" + rel, note + ": " + std::to_string(a) + " vs " + std::to_string(b), "{\"graph\":" + t.str() + "}"); }
+    if (a != b) { st.violations++; if (st.counts["viol_" + rel]++ < 2) emit_violation("relation:" + rel, "relation-" + rel, note + ": " + g17(a) + " vs " + g17(b), "{\"graph\":" + t.str() + "}"); }
 }
 
 static void relations(Stats &st, Rng &r, const TGraph &g, bool all_variants, int rot) {
@@ -92,6 +93,10 @@ static void relations(Stats &st, Rng &r, const TGraph &g, bool all_variants, int
     // 6. scaling by a power of two
     { int j = r.below(7) - 3; double s = std::ldexp(1.0, j); TGraph h = g; for (auto &x : h.w) x *= s;
       double x = f(h, va, err); expect_eq(st, "power-of-two-scaling", base * s, x, h, "weights scaled by 2^" + std::to_string(j) + " via " + VARIANTS[va]); }
+    // 6b. scaling by an EXTREME power of two (still exact: dyadic weights, no underflow / overflow) - an absolute tolerance
+    //     hidden in a comparison shows only when all distances are tiny or huge (seed S60); through a tree variant and the signed one
+    { static const int J[] = {-60, -40, -30, 30, 40}; int j = J[r.below(5)]; double s = std::ldexp(1.0, j); TGraph h = g; for (auto &x : h.w) x *= s;
+      for (int v : {1 + (rot % 2), 0}) { double x = f(h, v, err); expect_eq(st, "power-of-two-scaling", base * s, x, h, "weights scaled by 2^" + std::to_string(j) + " via " + VARIANTS[v]); } }
     // 7. independent polynomial oracle where affordable
     if (g.n <= 70) { McbOracle h = mcb_horton(g); if (h.ok) expect_eq(st, "horton-oracle", h.weight, base, g, "independent Horton oracle vs mcb_sva_signed"); }
 }
